@@ -7,10 +7,23 @@ SHRINK = False
 ALLOWED_AXIOMS = {"Classical_Prop.classic", "ClassicalDedekindReals.sig_not_dec",
                   "ClassicalDedekindReals.sig_forall_dec",
                   "FunctionalExtensionality.functional_extensionality_dep"}
-MANIFEST = {"text": "TODO", "note": "TODO"}
-RULE = "TODO"
-TRUSTED = []
-ASSUMPTIONS = []
+MANIFEST = {
+    "text": "Coq model of the VSS loader (Model/Vss.v: the entry tree as serde hands it over, typed extraction of min/max/allowed/default from JSON values incl. integer ranges and f64->f32 rounding via Flocq, recursive flattening into dot-joined paths, the ordered map, main.rs's start-up sequence on the broker model). Theorems: what is registered is exactly the sensor/attribute/actuator nodes reachable through branches, under the dot-joined names of their ancestors (soundness and completeness against an inductive reachability relation; branches never become signals); each entry carries the declared data type, entry type, description, comment, unit, change type (documented default otherwise) and the typed min/max/allowed/default; integers are taken over exactly and only inside the declared type's range, floats only when finite, other JSON kinds never; a leaf without data type or description, a branch without children, a node without valid type, or a min/max/allowed/default that does not fit rejects the whole document; an attribute's accepted default is its first value. Tied to the code on every run: generated documents (every data type incl. arrays, optional fields, boundary values, unknown keys) and single-fault mutations are loaded by vss::parse_vss_from_str and by the extracted model and diffed field by field; main.rs's add_entry/update_entries sequence is replayed on the real broker; an oracle that re-reads the JSON text with an independent parser compares the result with the declared ground truth.",
+    "note": "Trusted: Coq kernel; Flocq's 4 standard-library axioms (f32 rounding); extraction + OCaml driver (vm_compute cross-check); harness/src/fam_vss.rs (replays read_metadata_file's loop, which lives in the binary crate's main.rs and cannot be called directly); vp/vss.py (generator, Python json as the independent parser). Modelled, not verified: JSON lexing and serde's derive glue (required / unknown / duplicate keys) - the model starts from the entry tree and is told per node which keys were present and valid; duplicate keys are not generated.",
+}
+RULE = ("seeded documents: a root branch with a generated tree (depth 1-4, fan-out 1-4, names sharing prefixes), leaves "
+        "of all 24 data types x sensor/attribute/actuator with optional unit, comment, min, max, allowed, default and "
+        "change type, values at type boundaries (int ranges, u64 max, 2^63, 2^64 as float, f32 max, 1e-50, 1e300), "
+        "unknown keys; 40% of the documents carry one mutation out of 18 classes (leaf without datatype, branch "
+        "without children, min/max/allowed/default of wrong JSON kind or out of range incl. f32 overflow, invalid or "
+        "missing type/description/datatype/changetype, allowed not an array, and harmless ones: leaf with children, "
+        "branch with datatype, default on a sensor, empty branch); non-trivial = loaded document with at least two "
+        "entries; distinct = distinct documents")
+TRUSTED = ["extraction: ExtrOcamlBasic only; driver ocaml/model_run.ml",
+           "correspondence harness: harness/src/fam_vss.rs (vss::parse_vss_from_str, then the add_entry / update_entries loop of main.rs)",
+           "python: vp/vss.py (document generator; ground truth re-read from the JSON text with Python's json module)"]
+ASSUMPTIONS = ["number classification follows serde_json: non-negative integers below 2^64 are u64, negative ones down to -2^63 are i64, everything else and every literal with a fraction or exponent is an f64 (correctly rounded: feature float_roundtrip, fix F26)",
+               "a registration refused by the broker (invalid path name) is logged and skipped by main.rs; such names are not generated"]
 N_QUICK, N_THOROUGH = 400, 10000
 FAULT = {}
 
